@@ -76,6 +76,7 @@ FLOORS = {
 SIGNS = ['', '+', '-']
 INTS = ['', '0', '00', '1', '9', '10', '123', '1000000', '99999999']
 UNITS = ['', 'px', 'em', '%', 'deg', 's', 'cm', 'x']
+BIG_INTS = ['9007199254740993', '18014398509481985', '99999999999999999999', '123456789012345678901']
 DIGITS = '0123456789'
 SPARSE = '0159'
 HEXD = '0123456789abcdef'
@@ -778,6 +779,8 @@ def _num_plan(tier):
             shards.append(['num-short', sign, i, plen])
             for pre in itertools.product(DIGITS, repeat=plen):
                 shards.append(['num', sign, i, ''.join(pre), L])
+    # integers a double cannot hold (the library keeps them as Python ints: exactness is required for them as well)
+    shards.append(['bigint'])
     ints56 = ['', '0', '1', '99999999'] if q else INTS
     for sign in SIGNS:
         for i in ints56:
@@ -961,7 +964,13 @@ def run_shard(shard, tier, seed):
     old = guard.signal.signal(guard.signal.SIGALRM, guard._alarm)
     try:
         kind = shard[0]
-        if kind == 'reuse':
+        if kind == 'bigint':
+            for sign in SIGNS:
+                for i in BIG_INTS:
+                    for u in UNITS:
+                        evaluate(res, _num_case(sign, i, '', u), 2)
+            res.sample(_num_case('', BIG_INTS[0], '', 'px'))
+        elif kind == 'reuse':
             for j in range(len(REUSE_MENU)):
                 _reuse_case(res, shard[1], j)
             res.sample({'kind': 'reuse', 'first': REUSE_MENU[shard[1]], 'then': REUSE_MENU[0]})
